@@ -126,6 +126,11 @@ EDGE = [
     ('N', 'None', [PASS, PASS, 0, PASS, PASS, PASS]),
     ('N', 'None', [0, PASS, X]), ('N', 'None', [0, PASS, PASS, XX]), ('N', 'None', [0, X, PASS, XX]),
     ('N', 'None', [0, X, PASS, PASS, XX]), ('N', 'None', [0, X, XX, X]), ('N', 'None', [X]), ('N', 'None', [XX]),
+    # the LONGEST auction (319 calls: three passes, then every bid passed round to a double, passed round to a redouble, passed
+    # round to the next bid, and the closing pass — C02.bound_is_attained) with calls offered after its end; seeded change
+    # C01e-2 (a fixed-capacity history vector one slot short) fails on its last call only
+    ('N', 'Both', [PASS] * 3 + [c for b in range(35) for c in (b, PASS, PASS, X, PASS, PASS, XX, PASS, PASS)] + [PASS, PASS, 0]),
+    ('W', 'None', [PASS] * 3 + [c for b in range(35) for c in (b, PASS, PASS, X, PASS, PASS, XX, PASS, PASS)] + [PASS, X]),
 ]
 
 
